@@ -6,7 +6,8 @@
 From Coq Require Import List ZArith QArith.
 Import ListNotations.
 From Eudoxia Require Import Model.Types Model.Lifecycle Model.Container Model.Pool Model.Executor Model.Sched
-  Model.Simulator Proofs.PriorityPoolFacts Proofs.PriorityPoolRunFacts.
+  Model.Simulator Proofs.PriorityPoolFacts Proofs.PriorityPoolRunFacts Proofs.PriorityPoolClassFacts
+  Proofs.SimMainFacts.
 Close Scope Q_scope.
 Close Scope Z_scope.
 
@@ -139,7 +140,11 @@ Proof. exact pp_tick_step. Qed.
 Print Assumptions C16_tick_invariant.
 
 (* the closed loop (C08_priority_pool_runs_to_end): with well-formed static data the run never stops early, so
-   the invariant above holds after every tick of every such workload *)
+   the invariant above holds after every tick of every such workload.
+   NOTE: a statement about the loop [sim_run] for every pool count [np]; the code only starts with two pools
+   (`assert s.executor.num_pools == 2`, priority_pool.py:20): see C16_main_runs_to_end and
+   C16_main_refuses_other_pool_counts below for the entry point [sim_main]. The same remark applies to
+   C16_no_internal_assertion_run and C16_tick_invariant. *)
 Theorem C16_runs_to_end : forall C l np cpu ram arrivals,
   cf_static C = mk_static l -> ExecLifeFacts.dags_wf l ->
   (forall op c, cf_script C op c <> []) -> cf_multi C = true ->
@@ -176,3 +181,139 @@ Example C16_degenerate_pool_refuted :
   snd (sim_run RunExamples.C1 APriorityPool 0%Z (init_sim RunExamples.C1 2 10%Z (-(1))%Q) [[0]; []; []])
     = Some EBadAssignArgs.
 Proof. exact RunExamples.degenerate_pool_refuted. Qed.
+
+(* ------------------------------------------------------------------------------------------ *)
+(* the entry point [sim_main] (Model/Simulator.v): run_simulator from the construction of the scheduler on.   *)
+(* Audit B/P2: init_priority_pool_scheduler asserts `s.executor.num_pools == 2`.                               *)
+(* ------------------------------------------------------------------------------------------ *)
+
+(* with any other pool count the run does not start: the assertion of the scheduler's init fires before the
+   first tick *)
+Theorem C16_main_refuses_other_pool_counts : forall C np cpu ram arrivals,
+  np <> 2 -> sim_main C APriorityPool np cpu ram arrivals = (init_sim C np cpu ram, [], Some ESchedAssert).
+Proof. exact sim_main_refuses_other_pool_counts. Qed.
+Print Assumptions C16_main_refuses_other_pool_counts.
+
+(* with two pools of positive size the entry point is the loop ... *)
+Theorem C16_main_is_loop : forall C a np cpu ram arrivals,
+  (a = APriorityPool -> np = 2) -> 0 < np -> (0 < ram)%Q ->
+  sim_main C a np cpu ram arrivals = sim_run C a 0%Z (init_sim C np cpu ram) arrivals.
+Proof. exact sim_main_is_sim_run. Qed.
+Print Assumptions C16_main_is_loop.
+
+(* ... and the closed loop of C16_runs_to_end, for the configuration the code accepts *)
+Theorem C16_main_runs_to_end : forall C l cpu ram arrivals,
+  cf_static C = mk_static l -> ExecLifeFacts.dags_wf l ->
+  (forall op c, cf_script C op c <> []) -> cf_multi C = true ->
+  (0 < cpu)%Z -> (0 < ram)%Q ->
+  (forall k, In k (concat arrivals) -> pd_order (pipe_of (cf_static C) k) <> []) ->
+  NoDup (concat arrivals) ->
+  exists sf logs,
+    sim_main C APriorityPool 2 cpu ram arrivals = (sf, logs, None) /\ length logs = length arrivals.
+Proof. exact pp_main_runs_to_end. Qed.
+Print Assumptions C16_main_runs_to_end.
+
+(* non-vacuity: two pools run (and the theorem applies, any number of ticks); one or three pools are refused,
+   although the loop alone would run *)
+Example C16_main_two_pools_run : forall n,
+  exists sf logs,
+    sim_main RunExamples.C1 APriorityPool 2 10%Z 10%Q ([0] :: repeat [] n) = (sf, logs, None) /\ length logs = S n.
+Proof. exact MainExamples.ex_pp_main_applies. Qed.
+
+Example C16_main_refuses_one_and_three :
+  sim_main RunExamples.C1 APriorityPool 1 10%Z 10%Q MainExamples.arr1
+    = (init_sim RunExamples.C1 1 10%Z 10%Q, [], Some ESchedAssert) /\
+  sim_main RunExamples.C1 APriorityPool 3 10%Z 10%Q MainExamples.arr1
+    = (init_sim RunExamples.C1 3 10%Z 10%Q, [], Some ESchedAssert) /\
+  snd (sim_run RunExamples.C1 APriorityPool 0%Z (init_sim RunExamples.C1 1 10%Z 10%Q) MainExamples.arr1) = None.
+Proof. exact MainExamples.ex_main_refuses_one_and_three. Qed.
+
+(* ------------------------------------------------------------------------------------------ *)
+(* isolation by the class of the PIPELINE (Proofs/PriorityPoolClassFacts.v). Audit B/P1: C16_pool_by_class    *)
+(* speaks of the priority tag of the assignment; per round the results are arbitrary, so the tag need not be   *)
+(* the pipeline's priority (C16_per_round_tag_is_free below). In a run it is: the tag is copied pipeline ->    *)
+(* job -> assignment -> container -> result -> retry job. [op_class C o] is the priority of the pipeline of    *)
+(* operator o; [ops_belong C]: the operators listed for pipeline k are operators of pipeline k (true of        *)
+(* [mk_static] with well-formed DAGs, C16_ops_belong_mk_static). No hypothesis on pool sizes, container mode,  *)
+(* scripts or workload; the run may stop with an error (the statement covers the ticks it completed).          *)
+(* ------------------------------------------------------------------------------------------ *)
+
+Theorem C16_ops_belong_mk_static : forall C l,
+  cf_static C = mk_static l -> ExecLifeFacts.dags_wf l -> ops_belong C.
+Proof. exact ops_belong_mk_static. Qed.
+Print Assumptions C16_ops_belong_mk_static.
+
+(* every assignment of every tick: its tag is the priority of the pipeline of each of its operators, and it
+   goes to pool 0 if that pipeline is a query or interactive pipeline, to pool 1 if it is a batch pipeline --
+   first attempts and retries alike *)
+Theorem C16_run_pool_by_pipeline_class : forall C cpu ram arrivals sf logs oe,
+  ops_belong C ->
+  sim_run C APriorityPool 0%Z (init_sim C 2 cpu ram) arrivals = (sf, logs, oe) ->
+  forall lg a o, In lg logs -> In a (tl_asgs lg) -> In o (a_ops a) ->
+    a_prio a = op_class C o /\
+    (op_class C o = Query \/ op_class C o = Interactive -> a_pool a = 0%Z) /\
+    (op_class C o = Batch -> a_pool a = 1%Z).
+Proof. exact pp_run_pool_by_pipeline_class_2. Qed.
+Print Assumptions C16_run_pool_by_pipeline_class.
+
+(* the same for every pool count of the loop *)
+Theorem C16_run_pool_by_pipeline_class_any_np : forall C np cpu ram arrivals sf logs oe,
+  ops_belong C ->
+  sim_run C APriorityPool 0%Z (init_sim C np cpu ram) arrivals = (sf, logs, oe) ->
+  forall lg a o, In lg logs -> In a (tl_asgs lg) -> In o (a_ops a) ->
+    a_prio a = op_class C o /\
+    (op_class C o = Query \/ op_class C o = Interactive -> a_pool a = 0%Z) /\
+    (op_class C o = Batch -> a_pool a = 1%Z).
+Proof. exact pp_run_pool_by_pipeline_class. Qed.
+Print Assumptions C16_run_pool_by_pipeline_class_any_np.
+
+(* every reachable state: nothing is suspending or suspended, so the active containers are all the containers;
+   each lives in the pool of its pipeline's class; queued jobs sit in the queue of their pipeline's class; the
+   results of the last tick carry their pipeline's class *)
+Theorem C16_reach_containers_by_pipeline_class : forall C np cpu ram t s,
+  ops_belong C -> sim_reach C APriorityPool 0%Z (init_sim C np cpu ram) t s ->
+  (forall p, In p (e_pools (sm_exec s)) -> p_suspending p = [] /\ p_suspended p = []) /\
+  (forall p c o, In p (e_pools (sm_exec s)) -> In c (p_active p) -> In o (c_ops c) ->
+     c_prio c = op_class C o /\
+     (op_class C o = Query \/ op_class C o = Interactive -> p_id p = 0) /\
+     (op_class C o = Batch -> p_id p = 1)) /\
+  (forall pr j o, In j (queue_of (sm_sched s) pr) -> In o (j_ops j) -> j_prio j = pr /\ pr = op_class C o) /\
+  (forall r o, In r (sm_results s) -> In o (r_ops r) -> r_prio r = op_class C o).
+Proof. exact pp_reach_containers_by_pipeline_class. Qed.
+Print Assumptions C16_reach_containers_by_pipeline_class.
+
+(* one tick from a state satisfying the class invariant: the invariant again, and tagged assignments *)
+Theorem C16_class_tick_invariant : forall C t s newp s' lg,
+  ops_belong C -> cls_inv C s -> sim_tick C APriorityPool t s newp = Ok (s', lg) ->
+  cls_inv C s' /\ (forall a, In a (tl_asgs lg) -> atag C a).
+Proof. exact cls_tick. Qed.
+Print Assumptions C16_class_tick_invariant.
+
+(* non-vacuity: a run with all three classes and an OOM retry. Pipeline 0: Query [0]; pipeline 1: Batch, chain
+   1 -> 2; pipeline 2: Interactive [3]; two pools of 10 CPUs / 10 GB. The batch container is killed in tick 0 and
+   retried with doubled sizes in tick 1, on pool 1 again *)
+Example C16_three_classes_and_a_retry :
+  sim_run ClassExamples.C3 APriorityPool 0%Z (init_sim ClassExamples.C3 2 10%Z 10%Q) ClassExamples.arr3
+    = (ClassExamples.sf3, ClassExamples.logs3, None) /\
+  map (fun lg => (map (fun a => (a_ops a, a_prio a, a_pool a)) (tl_asgs lg),
+                  map (fun r => (r_ops r, r_prio r, r_err r)) (tl_results lg))) ClassExamples.logs3
+  = [ ([([0], Query, 0%Z); ([1; 2], Batch, 1%Z)], [([0], Query, false); ([1; 2], Batch, true)]);
+      ([([3], Interactive, 0%Z); ([1; 2], Batch, 1%Z)], [([3], Interactive, false)]);
+      ([], [([1; 2], Batch, false)]);
+      ([], []);
+      ([], []) ] /\
+  map (op_class ClassExamples.C3) [0; 1; 2; 3] = [Query; Batch; Batch; Interactive] /\
+  ops_belong ClassExamples.C3.
+Proof.
+  exact (conj ClassExamples.ex_run3 (conj (proj1 ClassExamples.ex_three_classes_and_a_retry)
+          (conj (proj2 ClassExamples.ex_three_classes_and_a_retry) ClassExamples.C3_belong))).
+Qed.
+
+(* the gap the run-level theorem closes: per round, a failed result tagged Query that carries the operators of the
+   Batch pipeline is retried on pool 0 (such a result never occurs in a run) *)
+Example C16_per_round_tag_is_free :
+  match priority_pool_step ClassExamples.C3 init_sstate ClassExamples.eF [ClassExamples.rBad] [] with
+  | Ok (_, _, _, asgs) => map (fun a => (a_ops a, a_prio a, a_pool a)) asgs
+  | Err _ => []
+  end = [([1; 2], Query, 0%Z)] /\ op_class ClassExamples.C3 1 = Batch /\ ~ rtag ClassExamples.C3 ClassExamples.rBad.
+Proof. exact ClassExamples.ex_per_round_tag_is_free. Qed.
